@@ -181,7 +181,11 @@ func (f *fatePlan) decide(d *simnet.Datagram) simnet.Fate {
 			}
 			return record("dup", simnet.Fate{Delays: dl}, r.ArgUs)
 		case "delay":
-			return record("delay", simnet.Fate{Delays: []time.Duration{w.Net.BaseLatency + time.Duration(r.ArgUs)*time.Microsecond}}, r.ArgUs)
+			arg := r.ArgUs
+			if ns.MaxHandshakeDrops > 0 && isHS && arg > 200000 {
+				arg = 200000
+			}
+			return record("delay", simnet.Fate{Delays: []time.Duration{w.Net.BaseLatency + time.Duration(arg)*time.Microsecond}}, arg)
 		case "corrupt":
 			rw := simnet.Rewrite{Off: r.Off, Del: r.Del, Ins: r.Ins}
 			if r.Xor != 0 {
@@ -226,11 +230,10 @@ func (f *fatePlan) decide(d *simnet.Datagram) simnet.Fate {
 	case u < ns.DropRate+ns.DupRate+ns.DelayRate:
 		extra := time.Duration(1+simnet.Intn(h>>20, int(max64(ns.MaxDelayUs, 1000)))) * time.Microsecond
 		if ns.MaxHandshakeDrops > 0 && isHS && extra > 200*time.Millisecond {
-			if f.hsDrops[hsKey] >= ns.MaxHandshakeDrops {
-				extra = 200 * time.Millisecond
-			} else {
-				f.hsDrops[hsKey]++
-			}
+			// while a handshake is pending the fairness budget allows no long delays at all: one
+			// 2-second delay inflates the retransmission timer so much that a single further loss
+			// exceeds the client's 10 s SOCKS timeout
+			extra = 200 * time.Millisecond
 		}
 		return record("delay", simnet.Fate{Delays: []time.Duration{w.Net.BaseLatency + extra}}, extra.Microseconds())
 	case u < ns.DropRate+ns.DupRate+ns.DelayRate+ns.CorruptRate:
